@@ -24,6 +24,10 @@ def field(fill, width, tag):
         return b":0"
     if fill == "colon00":
         return b":0.0"
+    if fill == "colon01":
+        return b":0.1"
+    if fill == "colon0s":
+        return b":0:S.0"
     return (tag * 5)[:5]
 
 
@@ -117,7 +121,7 @@ def run_mounts(case, root):
 PIDARG = {"minus2p63": -2 ** 63, "minus1": -1, "zero": 0, "one": 1, "2p31m1": 2 ** 31 - 1, "2p31": 2 ** 31,
           "2p63": 2 ** 63, "2p64": 2 ** 64, "str": "1", "none": None, "float": 1.5}
 NAMEARG = {"empty": "", "len15": "e" * 15, "len16": "e" * 16, "len17": "e" * 17, "len4096": "e" * 4096,
-           "nul_inside": "lo\0x", "int": 7, "bytes": b"lo"}
+           "nul_inside": "lo\0x", "int": 7, "bytes": b"lo", "percent": "/nonexistent/%s%s%s%n%d%d"}
 
 
 def run_args(case, child):
